@@ -2,7 +2,7 @@
 from __future__ import annotations
 import ast
 from ..api import A, spec, call_ref, program
-from ..terms import Evaluator, Poly, Rec, Cond, Opq, Comp, Ref, Closure, tkey, paths_of, term_equal, has_opaque, compare_terms, as_poly
+from ..terms import Evaluator, Poly, Rec, Cond, Opq, Comp, Ref, Closure, tkey, paths_of, term_equal, has_opaque, compare_terms, as_poly, hoist
 from ..report import PROVEN, REFUTED, UNKNOWN, AnalysisError
 
 TR = 'Circuit.transformers'
@@ -121,6 +121,7 @@ def check_kind(rep, prog, kind, mod, fn, written, rules=('identity', 'immittance
     """evaluate translator `kind` and compare with KIND_SPEC; emits obligations <pid_rule>.* keyed by kind"""
     site = prog.site(mod, fn)
     ev, term = eval_translator(prog, mod, fn)
+    term = hoist(term)
     rep.count('translators_evaluated')
     sp = KIND_SPEC.get(kind)
     leaves = paths_of(term)
